@@ -314,3 +314,59 @@ func (p *Pool) Put(v interface{}) {
 	}
 	p.items = append(p.items, poolItem{v, vc})
 }
+
+// Typed atomics (sync/atomic since go1.19): the same scheduling points as the
+// function forms.
+
+type AtomicInt64 struct{ v int64 }
+
+func (x *AtomicInt64) Load() int64                    { return AtomicLoadInt64(&x.v) }
+func (x *AtomicInt64) Store(v int64)                  { AtomicStoreInt64(&x.v, v) }
+func (x *AtomicInt64) Add(d int64) int64              { return AtomicAddInt64(&x.v, d) }
+func (x *AtomicInt64) Swap(v int64) int64             { return AtomicSwapInt64(&x.v, v) }
+func (x *AtomicInt64) CompareAndSwap(o, n int64) bool { return AtomicCompareAndSwapInt64(&x.v, o, n) }
+
+type AtomicInt32 struct{ v int32 }
+
+func (x *AtomicInt32) Load() int32                    { return AtomicLoadInt32(&x.v) }
+func (x *AtomicInt32) Store(v int32)                  { AtomicStoreInt32(&x.v, v) }
+func (x *AtomicInt32) Add(d int32) int32              { return AtomicAddInt32(&x.v, d) }
+func (x *AtomicInt32) Swap(v int32) int32             { return AtomicSwapInt32(&x.v, v) }
+func (x *AtomicInt32) CompareAndSwap(o, n int32) bool { return AtomicCompareAndSwapInt32(&x.v, o, n) }
+
+type AtomicUint64 struct{ v uint64 }
+
+func (x *AtomicUint64) Load() uint64         { return AtomicLoadUint64(&x.v) }
+func (x *AtomicUint64) Store(v uint64)       { AtomicStoreUint64(&x.v, v) }
+func (x *AtomicUint64) Add(d uint64) uint64  { return AtomicAddUint64(&x.v, d) }
+func (x *AtomicUint64) Swap(v uint64) uint64 { return AtomicSwapUint64(&x.v, v) }
+func (x *AtomicUint64) CompareAndSwap(o, n uint64) bool {
+	return AtomicCompareAndSwapUint64(&x.v, o, n)
+}
+
+type AtomicUint32 struct{ v uint32 }
+
+func (x *AtomicUint32) Load() uint32         { return AtomicLoadUint32(&x.v) }
+func (x *AtomicUint32) Store(v uint32)       { AtomicStoreUint32(&x.v, v) }
+func (x *AtomicUint32) Add(d uint32) uint32  { return AtomicAddUint32(&x.v, d) }
+func (x *AtomicUint32) Swap(v uint32) uint32 { return AtomicSwapUint32(&x.v, v) }
+func (x *AtomicUint32) CompareAndSwap(o, n uint32) bool {
+	return AtomicCompareAndSwapUint32(&x.v, o, n)
+}
+
+// AtomicBool is atomic.Bool.
+type AtomicBool struct{ v uint32 }
+
+func b2u(b bool) uint32 {
+	if b {
+		return 1
+	}
+	return 0
+}
+
+func (x *AtomicBool) Load() bool       { return AtomicLoadUint32(&x.v) != 0 }
+func (x *AtomicBool) Store(v bool)     { AtomicStoreUint32(&x.v, b2u(v)) }
+func (x *AtomicBool) Swap(v bool) bool { return AtomicSwapUint32(&x.v, b2u(v)) != 0 }
+func (x *AtomicBool) CompareAndSwap(o, n bool) bool {
+	return AtomicCompareAndSwapUint32(&x.v, b2u(o), b2u(n))
+}
